@@ -50,6 +50,14 @@ def gen_lines(rng, tier):
         lines.append('csshmpint %d' % z)
         for L in (0, 1, 2, 3, 4, 5, 8, 16, 33, (abs(z).bit_length() + 7) // 8, (abs(z).bit_length() + 7) // 8 + 1):
             lines.append('cmpint %d %d' % (L, z))
+    # values far too wide for the field whose low-order words are small (2^(32m) + small and their negatives): a composer
+    # that drops the top word would write them without complaint
+    for m in (1, 2, 3, 8):
+        for small in (0, 1, 5, 255, 256, 65535):
+            for sign in (1, -1):
+                z = sign * (2 ** (32 * m) + small)
+                for L in (1, 2, 3, 4, 4 * m, 4 * m + 1):
+                    lines.append('cmpint %d %d' % (L, z))
     # parse side: random and structured buffers
     for _ in range(n_rand * 2):
         b = bytes(rng.getrandbits(8) for _ in range(rng.randint(0, 14)))
